@@ -149,6 +149,10 @@ func (p *Prog) ReturnsTrueOnlyIf(f *Func, aw AtomWant) (bool, string) {
 				return
 			}
 		}
+		// … in any boolean shape, through named sub-conditions and the result flags of inlined predicates
+		if g.ExprEntails(r.Results[0], true, aw) {
+			return
+		}
 		// or established by dominating branches
 		pt, ok := g.Locate(r)
 		if ok && g.Dominated(pt, g.AtomEdges(aw.A, aw.Want)) {
